@@ -10,7 +10,7 @@ COMMON_TRUSTED = [
 ]
 
 VOC_ASSUMED = [
-    'abstract vocoder contract (contracts/verus/vocoder_abs.inc): Vocoder::synthesize is a deterministic function of (state, lf0, spectrum, lpf), writes exactly rawdata[0..fperiod], panic-free under shape_ok: ASSUMED, not proved. Determinism is backed only by a syntactic scan of src/vocoder (no unsafe / static / interior mutability / randomness / time); the frame and panic-freedom are NOT checked: Vocoder::synthesize exceeds 12 GB under CBMC even with the excitation and libm stubbed',
+    'abstract vocoder contract (contracts/verus/vocoder_abs.inc) used by units speech and engine: Vocoder::synthesize is a deterministic function of (state, lf0, spectrum, lpf), writes exactly rawdata[0..fperiod], panic-free under shape_ok. The frame clause, the length clause and panic-freedom under the shape precondition are PROVED for the real text in unit vocoder (relative to length-only contracts of the cepstrum conversions, the filters and the excitation); determinism is a Rust-language fact for safe code without hidden state, backed by the syntactic scan of src/vocoder (no unsafe / static / interior mutability / randomness / time); the two units state the same contract in different vocabularies (abstract state VocSt vs concrete fields) and that correspondence is by inspection',
     'axiom_voc_out_len / axiom_voc_next_cfg: definitional axioms on the uninterpreted voc_out / voc_next',
 ]
 
@@ -30,7 +30,7 @@ PROPS = {
         'technique': 'Verus contracts on the extracted text of SpeechGenerator::{new,generate_step,generate_all,synthesized_frames}; history induction as proof fns over those postconditions',
         'level_text': 'unbounded deductive proof (Verus/z3) that any history of steps plus finish concatenates to the one-shot waveform, for every frame count, buffer size and cursor position, relative to an abstract deterministic vocoder',
         'level_note': 'assumes the abstract vocoder contract (deterministic function of its state and arguments, writes exactly rawdata[0..fperiod]); frames*fperiod fits usize; rewrites R1,R2,R3,R5,R10',
-        'verus': ['speech'],
+        'verus': ['speech', 'vocoder'],
         'assumptions': VOC_ASSUMED + [
             'usize overflow of frames*fperiod excluded by precondition of generate_all',
             'histories are modelled as the induction lemma_c02_step / lemma_c02_finish over generate_step\'s and generate_all\'s postconditions (spec level)',
@@ -61,7 +61,7 @@ PROPS = {
         'technique': 'Verus contract on the extracted text of Engine::generator (per-stream wiring) + Kani harnesses on Mask::create / MlpgAdjust::create / Models::stream',
         'level_text': 'unbounded proof that stream i receives exactly msd_threshold[i], gv_weight[i], model_stream(i); voiced <=> msd > threshold and NODATA placement bounded by Kani',
         'level_note': 'callees abstracted by uninterpreted functions of their arguments (determinism of safe Rust without interior mutability assumed)',
-        'verus': ['engine'],
+        'verus': ['engine', 'vocoder'],
         'assumptions': [], 'trusted_base': [], 'not_decided': [],
     },
     'C19': {
@@ -122,7 +122,7 @@ PROPS = {
         'technique': 'Verus contracts on the extracted text of SpeechGenerator, DurationEstimator and Engine::{generator,synthesize}; Kani harnesses for hole contracts and MlpgAdjust::create shapes',
         'level_text': 'unbounded proof of no-panic and exact length (fperiod x sum of state durations), every state >= 1 frame, every label contributes all states, empty -> empty, for 2- and 3-stream voices, relative to the assumed contracts of Models / MlpgAdjust / Vocoder; those contracts are bounded-checked by Kani where stated',
         'level_note': 'finiteness / "NaN only after runaway growth" is NOT decided (IIR stability in floating point); Vocoder::synthesize panic-freedom under shape_ok, Models::duration length and MlpgAdjust::create shape are assumed in Verus and only bounded-checked; usize overflow of frame totals excluded by precondition',
-        'verus': ['speech', 'duration', 'engine'],
+        'verus': ['speech', 'duration', 'engine', 'vocoder'],
         'assumptions': VOC_ASSUMED + ['Models::duration returns labels*nstate entries (assumed)', 'MlpgAdjust::create returns sum(durations) rows of vector_length values (Kani: bounded)'],
         'trusted_base': [],
         'not_decided': ['all samples finite inside the stable range; non-finite only after runaway growth', 'Model::get_parameter todo!() unreachable only for well-formed models (precondition lookup_ok in unit tree)'],
@@ -139,9 +139,9 @@ PROPS = {
         'technique': 'Kani loop-free harnesses on Excitation::{start,get,end}, Random::rnd, Mseq::next; Verus contracts on the extracted text of RingBuffer and Excitation::{voiced_frame, unvoiced_frame}',
         'level_text': 'complete (loop-free, full symbolic f64 domain within the stated envelope 2 <= T0 <= 4800) proof of the pulse-train step contract and its invariant 0 <= counter < T0; LCG / M-sequence recurrences for all states; unbounded proof (any low-pass order) that one voiced sample adds noise*(delta - h[i]) + pulse*h[i] to ring-buffer slot index+i (mod n) and one unvoiced sample adds the noise at the centre slot; Kani: one full get() step for nlpf = 3',
         'level_note': 'PARTIAL: noise statistics (zero mean, unit variance, whiteness) and exp/sqrt accuracy are not decided; sqrt is an uninterpreted stub; the glide increment is checked as dataflow only; pitch clamp in Vocoder::synthesize not covered',
-        'verus': ['ringbuf'],
+        'verus': ['ringbuf', 'vocoder'],
         'assumptions': ['sqrt returns a finite non-negative value (stub)'], 'trusted_base': [],
-        'not_decided': ['zero-mean unit-variance white noise', 'pulse height equals sqrt(T0) numerically (libm)', 'period from log-F0 with clamp to [ln 20, ln 20000] in Vocoder::synthesize', 'linear glide value (p - prev)/fperiod'],
+        'not_decided': ['zero-mean unit-variance white noise', 'pulse height equals sqrt(T0) numerically (libm)', 'linear glide value (p - prev)/fperiod'],
     },
     'C12': {
         'technique': 'Verus contracts on the extracted text of MlpgMatrix::par and Engine::generator; Kani harnesses on MlpgGlobalVariance::apply_gv, Models::gv and the switch-expansion hole',
@@ -162,10 +162,10 @@ PROPS = {
     'C16': {
         'technique': 'Kani frame harness on Condition::set_volume (exp stubbed as an uninterpreted function) + Verus contract on Engine::generator',
         'level_text': 'complete frame proof: set_volume writes the volume field only; unbounded proof that condition.volume reaches Vocoder::new\'s volume argument and nothing else in the pipeline',
-        'level_note': 'PARTIAL: "multiplies every sample by 10^(v/20)" inside Vocoder::synthesize and the dB round trip ln(exp(x)) ~ x are NOT decided (libm; CBMC models are non-deterministic); Verus states volume == exp(v*DB) and get_volume == ln(volume)/DB with exp/ln uninterpreted',
-        'verus': ['engine', 'cond'],
+        'level_note': 'PARTIAL: the dB round trip ln(exp(x)) ~ x is NOT decided (libm); Verus states volume == exp(v*DB), get_volume == ln(volume)/DB, and (unit vocoder) that every sample written by Vocoder::synthesize is some filter output times the stored volume, with exp/ln/IEEE ops uninterpreted',
+        'verus': ['engine', 'cond', 'vocoder'],
         'assumptions': ['exp is a deterministic positive function (stub)'], 'trusted_base': [],
-        'not_decided': ['rawdata[i] = x * volume inside Vocoder::synthesize', 'get_volume(set_volume(v)) ~ v', 'DB is the double nearest ln10/20'],
+        'not_decided': ['get_volume(set_volume(v)) ~ v (libm round trip)', 'DB is the double nearest ln10/20', 'the exact filter output x that is multiplied by the volume (only "some x times volume" is proved)'],
     },
     'C20': {
         'technique': 'Kani native function contracts (requires/ensures/modifies + proof_for_contract) and loop-free full-domain harnesses on Condition setters/getters',
